@@ -1208,7 +1208,7 @@ package gohlslib
 //@        && m.streams[k].isLeading == leadSpec(m, k) && m.streams[k].isRendition == rendSpec(m, k) && m.streams[k].isDefault == defSpec(m, k)))
 //@   ensures (result == nil && m.Variant != MuxerVariantMPEGTS) ==> forall(j, inTracks(m, j) ==> forall(k, (j < k && inTracks(m, k)) ==> !(audioMarked(m, j) && audioMarked(m, k))))
 //@   ensures result == nil ==> (m.leadingStream != nil && m.leadingStream.isLeading)
-//@   ensures (result == nil && m.Variant != MuxerVariantMPEGTS) ==> exists(L, 0 <= L && L < len(m.streams) && forall(i, (0 <= i && i < len(m.streams)) ==> (m.streams[i].isLeading == (i == L))))
+//@   ensures (result == nil && m.Variant != MuxerVariantMPEGTS) ==> forall(i, (0 <= i && i < len(m.streams)) ==> forall(j, (i < j && j < len(m.streams)) ==> !(m.streams[i].isLeading && m.streams[j].isLeading)))
 //@ end
 
 //@ func Muxer.Start$2
@@ -1456,4 +1456,36 @@ package gohlslib
 //@   ensures calls("muxerSegmentMPEGTS.writeMPEG4Audio") == 1 ==> (callarg("muxerSegmentMPEGTS.writeMPEG4Audio", 0, 1) == track && callarg("muxerSegmentMPEGTS.writeMPEG4Audio", 0, 2) == pts && callarg("muxerSegmentMPEGTS.writeMPEG4Audio", 0, 3) == aus)
 //@   ensures result == nil ==> (calls("muxerSegmentMPEGTS.writeMPEG4Audio") == 1 || (!track.isLeading && old(track.stream.nextSegment) == nil))
 //@   reachable result == nil && calls("Muxer.rotateSegments") == 1
+//@ end
+
+// ---------------------------------------------------------------------------------------
+// C01: audio front ends (fMP4 variants). Every access unit / packet becomes exactly one sample, in order,
+// always flagged random access and never as a parameter change, with the timestamp of its position.
+
+//@ func muxerSegmenter.writeOpus
+//@   props C01
+//@   role writer
+//@   nocallpre
+//@   requires fmp4Pre(s, track)
+//@   modifies *
+//@   loop 1 invariant ri < len(packets) && calls("muxerSegmenter.fmp4WriteSample") == ri + 1
+//@   ensures calls("muxerSegmenter.fmp4WriteSample") <= len(packets)
+//@   ensures result == nil ==> calls("muxerSegmenter.fmp4WriteSample") == len(packets)
+//@   atcall muxerSegmenter.fmp4WriteSample arg1 == track && arg2 && !arg3 && arg4.Payload == packet && arg4.dts == pts && arg4.ntp == ntp && arg4.PTSOffset == 0
+//@   reachable result == nil && calls("muxerSegmenter.fmp4WriteSample") == 2
+//@ end
+
+//@ func muxerSegmenter.writeMPEG4Audio
+//@   props C01
+//@   role writer
+//@   nocallpre
+//@   requires s.variant != MuxerVariantMPEGTS && fmp4Pre(s, track) && is(track.Codec, *codecs.MPEG4Audio) && ref(track.Codec) != 0
+//@   requires track.Codec.(*codecs.MPEG4Audio).Config.SampleRate > 0
+//@   modifies *
+//@   loop 1 invariant ri < len(aus) && calls("muxerSegmenter.fmp4WriteSample") == ri + 1
+//@   ensures calls("muxerSegmenter.fmp4WriteSample") <= len(aus)
+//@   ensures result == nil ==> calls("muxerSegmenter.fmp4WriteSample") == len(aus)
+//@   atcall muxerSegmenter.fmp4WriteSample arg1 == track && arg2 && !arg3 && arg4.Payload == au && arg4.PTSOffset == 0
+//@   atcall muxerSegmenter.fmp4WriteSample arg4.dts == pts + div(i * 1024 * track.ClockRate, sampleRate)
+//@   reachable result == nil && calls("muxerSegmenter.fmp4WriteSample") == 2
 //@ end
